@@ -3,11 +3,14 @@
 Two layers on the real Cluster/Session/HostConnection/Connection/ResponseFuture code, one host,
 scaled-down stream-id space (see vt/c09lib.py):
 
- E  breadth-first search over histories of {send the next tagged request, switch the session's keyspace
-    (USE, which makes the driver multiplex its own USE on every pooled connection), the server answers any
-    unanswered request (also one whose client already timed out), the client timeout of any
-    request fires, the connection fails, the next executor task runs (connection replacement)},
-    with canonical-state dedup; every clause of the property is judged in every state.
+ E  breadth-first search over histories of {send the next tagged request (a query, or an EXECUTE of a prepared
+    statement), switch the session's keyspace (USE, which makes the driver multiplex its own USE on every pooled
+    connection), the server answers any unanswered request (also one whose client already timed out; an EXECUTE
+    also with UNPREPARED, which makes the driver send a PREPARE and then the EXECUTE again, each step from an
+    executor task), the client timeout of any request fires, the connection fails, the socket of a connection
+    stops / starts being writable (send_msg refuses with ConnectionBusy), the next executor task runs (connection
+    replacement, retry, re-prepare steps)}, with canonical-state dedup; every clause of the property is judged in
+    every state.
  S  all schedules (preemption-bounded, line-granular in the focus functions) of client threads
     calling execute_async and a reactor thread that delivers the held answers and fires client
     timeouts in explorer-chosen order; the same oracle at the end of each schedule, the wire
@@ -19,7 +22,7 @@ from vt.c09lib import W9, judge, flags_key
 from vt.core import Part, HarnessError
 
 KS = ['ks1', 'ks2']
-NONTRIVIAL = set(['reuse', 'orphan', 'use-switched', 'use-noop'])
+NONTRIVIAL = set(['reuse', 'orphan', 'use-switched', 'use-noop', 'reprepare-sent', 'send-refused'])
 
 import cassandra.connection as _conn
 import cassandra.pool as _pool
@@ -28,7 +31,8 @@ import cassandra.cluster as _cluster
 META = {
     'level': 'model_checking',
     'engine': 'E+S',
-    'technique': 'explicit-state BFS over send/keyspace-switch/answer/timeout/late-answer/failure histories with canonical-state dedup, plus '
+    'technique': 'explicit-state BFS over send/keyspace-switch/answer/UNPREPARED-answer/timeout/late-answer/failure/socket-not-writable/'
+                 'executor-task histories with canonical-state dedup, plus '
                  'preemption-bounded line-granular schedule enumeration of client threads against the reactor thread, on the real '
                  'Session, HostConnection, Connection and ResponseFuture',
     'text': 'One host, connections with a scaled-down stream-id space (3-4 ids, 2 free after the handshake, orphan threshold 2; also protocol '
@@ -40,16 +44,31 @@ META = {
             'and repetition: first switch, repeated switch to the keyspace already selected, switch back; session connected with or without '
             'a keyspace; HostConnection and the legacy pool), where the application USE and the USE that Connection.set_keyspace_async '
             'multiplexes on the pooled connection are held and answered (or timed out, or lost with the connection) like any other request, '
-            'and a replacement connection is opened with set_keyspace_blocking (wait_for_response). '
+            'and a replacement connection is opened with set_keyspace_blocking (wait_for_response).  In the prepared-statement '
+            'configurations every request is an EXECUTE of its own prepared statement (prepared through Session.prepare) and the node '
+            'may answer an EXECUTE with UNPREPARED (once or twice per history): the re-prepare chain - _reprepare queued on the executor, '
+            'PREPARE sent on a connection borrowed anew, PREPARE answered, _execute_after_prepare queued on the executor, EXECUTE sent '
+            'again - is cut into its separate events and interleaved with the sends, answers, client timeouts (before the PREPARE is '
+            'sent, while it is outstanding, after its answer but before the continuation runs) and a connection failure; on one v4 '
+            'connection (4 and 3 ids), on the protocol-v2 pool of two connections (3 requests, so that the PREPARE is borrowed on another '
+            'connection than the EXECUTE was sent on) and on a v4 pool whose connection has just been replaced while three EXECUTEs '
+            'are outstanding on the old one (prologue of 8 events, then every history of the depth bound).  In the not-writable '
+            'configurations the socket of a pooled connection stops being writable once per history at any point and becomes writable '
+            'again at any later point (Connection._socket_writable, the flag the libev reactor clears on EAGAIN): every request sent '
+            'meanwhile - first send, PREPARE or second EXECUTE of a re-prepare - is refused by send_msg with ConnectionBusy after the '
+            'pool handed out a slot and a stream id (v4 one connection, v2 two connections, v4 with a re-prepare). '
             'S: 2 client threads x 1-2 execute_async (or one thread switching the keyspace, on a session with no keyspace / already on that '
             'keyspace / with no recycled id free), on top of a prologue that leaves a request outstanding or orphaned, against a reactor '
             'thread that delivers answers, fires one client timeout (thorough: and one connection failure) in every order; every schedule '
             'within the preemption bound, scheduling points at lock operations and at every line of Connection.get_request_id/send_msg/'
             'process_msg/set_keyspace_async, HostConnection.borrow_connection/return_connection, ResponseFuture._query/_on_timeout/_set_result. '
-            'Oracle: no request (USE included) arrives at the server on a stream on which another is still unanswered; no stream id beyond the '
-            'maximum; a callback only ever receives the tag of its own request, once; in_flight equals the number of unanswered '
-            'requests; the free list never holds an id twice or an id in use; whenever everything sent on an open connection is '
-            'answered: in_flight 0, no orphans, every id 0..highest free exactly once.',
+            'Oracle: no request (USE and PREPARE included) arrives at the server on a stream on which another is still unanswered; no stream '
+            'id beyond the maximum; a callback only ever receives the tag of its own request, once (a PREPARE is answered with the id of the '
+            'statement text that arrived on that stream); on every open connection of the pool in_flight equals the number of unanswered '
+            'requests (plus the answered PREPAREs taken off that connection whose handler still waits on the executor); the free list '
+            'never holds an id twice or an id in use; whenever everything sent on an open connection is answered: in_flight 0, no orphans, '
+            'every id 0..highest free exactly once - a request that was refused at the send and never reached the wire holds neither an id '
+            'nor a slot.',
     'note': 'Handlers are atomic in layer E.  In layer S client timeouts run on the reactor thread, as in every shipped reactor '
             '(timers and reads are served by the same event-loop thread).  The id space is scaled down through the documented class '
             'attributes max_in_flight / orphaned_threshold and by shrinking the initial free list (300 in the driver).',
@@ -58,6 +77,19 @@ META = {
 
 
 # ============================================================================================ layer E
+def input_class(st):
+    """Fingerprint suffix: the families of events the history contains beyond send/answer/timeout/failure (so that a defect of the
+    re-prepare chain or of a refused send does not share its fingerprints with one of the plain request path)."""
+    cls = ''
+    if 'unprepared' in st.flags:
+        cls += '/re-prepare'
+        if len(st.pool_conns()) > 1:
+            cls += '/several-connections'       # a pool of two connections, or a connection that has been replaced
+    if 'unwritable' in st.flags:
+        cls += '/socket-not-writable'
+    return cls
+
+
 class H(explore.Harness):
     name = 'c09'
 
@@ -74,7 +106,7 @@ class H(explore.Harness):
         return st.canon()
 
     def check(self, st, part, hist):
-        judge(st, part, {'layer': 'E', 'params': self.params, 'history': hist}, 'E')
+        judge(st, part, {'layer': 'E', 'params': self.params, 'history': hist}, 'E' + input_class(st))
         fk = flags_key(st)
         part.outcome(fk)
         for fl in fk:
@@ -85,6 +117,12 @@ class H(explore.Harness):
             part.mark_nontrivial(repr(st.canon()))
         if 'reuse' in st.flags and 'late' in st.flags:
             part.sample({'layer': 'E', 'history': hist, 'arrivals (conn, stream, tag)': st.arrivals, 'flags': list(fk)}, limit=1)
+        if 're-executed' in st.flags and 'timeout-task-queued' in st.flags:
+            part.sample({'layer': 'E', 're-prepare': True, 'history': hist, 'arrivals (conn, stream, tag)': st.arrivals,
+                         'flags': list(fk)}, limit=1)
+        if 'send-refused' in st.flags and 'reprepare-sent' in st.flags:
+            part.sample({'layer': 'E', 'socket not writable': True, 'history': hist, 'arrivals (conn, stream, tag)': st.arrivals,
+                         'flags': list(fk)}, limit=1)
         if 'use-noop' in st.flags and 'use-switched' in st.flags and 'reuse' in st.flags:
             part.sample({'layer': 'E', 'keyspace switches': True, 'history': hist, 'arrivals (conn, stream, tag)': st.arrivals,
                          'flags': list(fk)}, limit=1)
@@ -129,8 +167,9 @@ def e_configs(ctx):
         # legacy pool with two connections (3 ids each): the PREPARE goes out on the least busy connection of the pool
         ('v2-pool-prep', dict(base, protocol_version=2, max_in_flight=2, prepared=True, n_req=3, max_unprepared=1, max_faults=0), 8, 10),
         # the connection was replaced (orphan threshold) while an EXECUTE is outstanding on the old one
-        ('v4-prep-replaced', dict(base, prepared=True, n_req=4, max_unprepared=1, max_faults=0,
-                                  prologue=[('send',), ('send',), ('timeout', 0), ('timeout', 1), ('send',), ('task',)]), 5, 7),
+        # (ids 0..5; two requests timed out, which makes the next borrow replace the connection; three more are outstanding on the old one)
+        ('v4-prep-replaced', dict(base, max_in_flight=6, prepared=True, n_req=5, max_unprepared=1, max_faults=0,
+                                  prologue=[('send',), ('send',), ('timeout', 0), ('timeout', 1), ('send',), ('send',), ('send',), ('task',)]), 4, 6),
         # ---- the socket of a connection is not writable for a while (send buffer full): send_msg refuses the request with
         # ConnectionBusy after the pool has handed out a slot and a stream id
         ('v4-unwritable', dict(base, max_in_flight=3, initial_ids=1, n_req=3, max_unwritable=1, max_faults=0), 6, 8),
@@ -300,6 +339,11 @@ def _layer(ctx, name, fn):
         'with_late_answer_to_orphan': d.get(name + '_transitions_with_late', d.get(name + '_executions_with_late', 0)),
         'with_connection_switched_by_multiplexed_USE': d.get(name + '_transitions_with_use-switched', d.get(name + '_executions_with_use-switched', 0)),
         'with_switch_to_keyspace_already_selected': d.get(name + '_transitions_with_use-noop', d.get(name + '_executions_with_use-noop', 0)),
+        'with_PREPARE_sent_after_UNPREPARED': d.get(name + '_transitions_with_reprepare-sent', 0),
+        'with_EXECUTE_sent_again_after_re-prepare': d.get(name + '_transitions_with_re-executed', 0),
+        'with_client_timeout_while_PREPARE_outstanding': d.get(name + '_transitions_with_timeout-prepare-outstanding', 0),
+        'with_client_timeout_while_retry_or_re-prepare_step_queued': d.get(name + '_transitions_with_timeout-task-queued', 0),
+        'with_send_refused_socket_not_writable': d.get(name + '_transitions_with_send-refused', 0),
         'wall_s': round(time.time() - t0, 1)}
 
 
@@ -308,7 +352,7 @@ def run(ctx):
     if os.environ.get('C09_ONLY'):
         ctx.cap('C09_ONLY=%s: only the matching configurations were run' % os.environ['C09_ONLY'])
     _layer(ctx, 'E', run_e)
-    del ctx.samples[4:]         # leave room for a written-out schedule of layer S
+    del ctx.samples[6:]         # leave room for a written-out schedule of layer S
     _layer(ctx, 'S', run_s)
     ctx.count('states', ctx.cov['layers']['S']['executions'])     # layer S is stateless: one state per execution
     ctx.cov['rule'] = ('E: state = event history replayed on a fresh real Session; S: execution = one schedule (choice list) on a fresh real '
@@ -316,9 +360,15 @@ def run(ctx):
                        'time on a connection or a request was really orphaned by its client timeout.  Outcomes = the set of things that happened '
                        '(reuse, orphan, late answer to an orphan, growth of highest_request_id, exhaustion, orphan threshold, replacement, '
                        'connection failure, busy-wait in borrow_connection, use-sent/use-switched = a keyspace switch made the driver send its own '
-                       'USE on the pooled connection / that USE was answered, use-noop = a switch found the connection already on the keyspace), '
+                       'USE on the pooled connection / that USE was answered, use-noop = a switch found the connection already on the keyspace, '
+                       'unprepared = an EXECUTE was answered UNPREPARED, reprepare-sent / reprepared = the PREPARE arrived at the node / was '
+                       'answered on a live connection, re-executed = the EXECUTE arrived a second time, timeout-prepare-outstanding / '
+                       'timeout-task-queued = a client timeout fired while the PREPARE was unanswered / while a retry or re-prepare step of that '
+                       'request was queued on the executor, unwritable = the socket of a connection stopped being writable, send-refused = a '
+                       'request was refused with ConnectionBusy), '
                        'for S also whether the schedule switched threads mid-way.  Non-trivial also counts states/schedules with a keyspace switch '
-                       'that reached the pooled connection')
+                       'that reached the pooled connection, states in which a re-prepare really sent its PREPARE and states in which a send was '
+                       'really refused')
     ctx.cov['preemption_bound'] = dict((n, b) for n, _, b in s_configs(ctx))
     ctx.cov['depth_bound'] = dict((n, d) for n, _, d in e_configs(ctx))
     ctx.assume('engine E: handlers are atomic with respect to each other (single-threaded histories)')
@@ -330,7 +380,13 @@ def run(ctx):
                'configurations are sized so that a switch never finds a connection at full capacity: Connection.set_keyspace_async '
                'busy-waits for a free slot on the event-loop thread.  A history in which a handler cannot return (that busy-wait, or a thread '
                'asking for a non-reentrant lock it holds) ends there, is not judged, and is counted in E_histories_cut_handler_never_returns '
-               '(0 on the unchanged tree)')
+               '(0 on a tree without the re-prepare defect C09-reprepare-returns-wrong-connection; with it a trashed connection is closed '
+               'under the pool lock while a request is outstanding on it, whose error callback asks for that lock again)')
+    ctx.assume('re-prepare: the node answers a PREPARE with the id of the statement (the id the application prepared it under); an UNPREPARED '
+               'answer names the id of the EXECUTE it answers.  An answered PREPARE whose handler (ResponseFuture._execute_after_prepare) the '
+               'driver queued on the executor keeps its slot until that task has run: such a connection is not "everything answered" yet')
+    ctx.assume('socket not writable: Connection._socket_writable is cleared and set by the explorer (in the driver only the libev reactor does '
+               'that, on EAGAIN / when the socket drains); while it is cleared nothing the driver had already accepted is lost')
     ctx.assume('the id space is scaled down (max_in_flight 3-4, initial free list 1-2 ids, orphaned_threshold 2); the code paths are the same as for 32768 ids')
 
 
